@@ -41,13 +41,18 @@ func c16Invalidations() []invDev {
 	pre("payload-nil", "payload", "", func(r *reqSpec) { r.payload = nil })
 	pre("payload-empty", "payload", "", func(r *reqSpec) { r.payload = []byte{} })
 	for _, p := range []struct{ n, j string }{{"null", "null"}, {"array", `[{"a":1}]`}, {"string", `"text"`}, {"number", `42`}, {"true", `true`}, {"truncated", `{"a":`}, {"trailing-garbage", `{"a":1} x`},
-		{"two-objects", `{"a":1}{"b":2}`}, {"not-json", `payload`}, {"whitespace-only", "  \n"}} {
+		{"two-objects", `{"a":1}{"b":2}`}, {"trailing-closing-brace", `{"a":1}}`}, {"trailing-closing-bracket", `{} ]`}, {"trailing-brace-then-text", `{"a":1} } x`}, {"trailing-comma", `{"a":1},`}, {"not-json", `payload`}, {"whitespace-only", "  \n"}} {
 		p := p
 		pre("jws-payload-"+p.n, "payload", "jws", func(r *reqSpec) { r.payload = []byte(p.j) })
 	}
 	// times
 	pre("signing-time-zero", "time", "", func(r *reqSpec) { r.signingTime = time.Time{} })
 	pre("expiry=signing", "expiry", "", func(r *reqSpec) { r.expiry = r.signingTime })
+	pre("expiry=signing-in-another-zone", "expiry", "", func(r *reqSpec) { r.expiry = r.signingTime.In(time.FixedZone("", 5*3600+1800)) })
+	pre("expiry=signing-both-in-fixed-zones", "expiry+time", "", func(r *reqSpec) {
+		r.signingTime = r.signingTime.In(time.FixedZone("a", -8*3600))
+		r.expiry = r.signingTime.In(time.FixedZone("b", -8*3600))
+	})
 	pre("expiry<signing", "expiry", "", func(r *reqSpec) { r.expiry = r.signingTime.Add(-time.Hour) })
 	pre("expiry-same-second-after-truncation", "expiry", "", func(r *reqSpec) {
 		r.signingTime = r.signingTime.Truncate(time.Second).Add(200 * time.Millisecond)
@@ -346,6 +351,25 @@ func c16Body(c *mc.Ctx, media, scheme string, remote bool, keyName string) {
 		}
 	}
 	c.Statef("invalid=%v changes=%v", invalid, names)
+	// The same certificate chain is first used by a *valid* signing (another envelope object, another signer object): whatever the
+	// library remembers about a chain from an earlier call must not weaken the validation of this request.
+	if rs != nil && len(rs.Chain) > 0 && rs.Chain[0] != nil {
+		nb := rs.Chain[0].NotBefore
+		ok := true
+		for _, x := range rs.Chain {
+			if x == nil {
+				ok = false
+				break
+			}
+			if x.NotBefore.After(nb) {
+				nb = x.NotBefore
+			}
+		}
+		if ok {
+			prs := envenc.NewRemoteSigner(pki.K(r.keyName), rs.Chain)
+			doSign(media, &signature.SignRequest{Payload: signature.Payload{ContentType: "text/plain", Content: []byte(`{"prime":true}`)}, Signer: prs, SigningTime: nb.Add(time.Hour), SigningScheme: signature.SigningSchemeX509})
+		}
+	}
 	env, serr, pan := doSign(media, req)
 	c.Tracef("%s %s remote=%v key=%s changes %v -> err=%v bytes=%d panic=%v", media, scheme, remote, keyName, names, serr, len(env), pan)
 	var inv []string
